@@ -88,9 +88,8 @@ Proof.
   induction l as [|a l IH]; intros F.
   - simpl. induction (seq 0 n); simpl; auto.
   - inversion F; subst. specialize (IH H2). simpl filter.
-    rewrite (flat_map_ext_in' _ (fun p => if f a =? p then a :: filter (fun x => f x =? p) l else filter (fun x => f x =? p) l))
-      by (intros; reflexivity).
-    rewrite (flat_map_insert (fun p => filter (fun x => f x =? p) l) a (f a) (seq 0 n) (seq_NoDup n 0)).
+    eapply perm_trans.
+    { apply (flat_map_insert (fun p => filter (fun x => f x =? p) l) a (f a) (seq 0 n) (seq_NoDup n 0)). }
     destruct (in_dec Nat.eq_dec (f a) (seq 0 n)) as [I|N].
     + now constructor.
     + exfalso. apply N. apply in_seq. lia.
